@@ -15,6 +15,7 @@
 package ociserver
 
 import (
+	"errors"
 	"fmt"
 
 	"cuelabs.dev/go/oci/ociregistry"
@@ -26,4 +27,18 @@ func withHTTPCode(statusCode int, err error) error {
 
 func badAPIUseError(f string, a ...any) error {
 	return ociregistry.NewError(fmt.Sprintf(f, a...), ociregistry.ErrUnsupported.Code(), nil)
+}
+
+// backendError returns err with the given context in front of it,
+// unless err is the result of an HTTP request already (the backend
+// is itself a client of another registry): that's passed on as it is,
+// because any text put in front of it hides its status and code prefixes
+// from the trimming done by [ociregistry.MarshalError], so the message
+// would grow at every server it travels through.
+func backendError(context string, err error) error {
+	var httpErr ociregistry.HTTPError
+	if errors.As(err, &httpErr) {
+		return err
+	}
+	return fmt.Errorf("%s: %w", context, err)
 }
